@@ -3,13 +3,45 @@ import re
 from wa.mir import AnchorMissing, ShapeNotRecognised, callee_of, operand_alias
 from wa.expr import Exprs, show_expr, strip_refs, subexprs, root_local, data_slice
 from wa.cond import dominating_facts, bool_facts
-from wa.absint import Intervals
+from wa.absint import Intervals, meet
 from wa.interp import eval_expr, Unknown
-from wa import fmtlit
+from wa import fmtlit, strsym
+from wa.implied import implying_edges
+from wa.loopform import is_range_next, range_bounds
 from .search import GBM, ABS, SEND_INFO, SET_PV, INS_LINE, abs_calls, params_by_type
 
 SSI = "engine::send_search_info"
 INFO_RE = re.compile(r"^info pv\{\} depth \{\} nodes \{\} score (cp|mate) \{\} time \{\}$")
+
+
+def _info_sites(b):
+    """[(loc, rendered template, Rendering|None)] of every format site of b whose text starts with
+    `info`: the text is *rendered* (wa/strsym.py), i.e. a string argument chosen by an if/else, built
+    by a nested format! or returned by an inlined helper is spliced into the template, one
+    alternative per choice, each on the body restricted to that choice."""
+    out = []
+    for bb, t in strsym.fmt_sites(b):
+        if t.startswith("info") or " info " in t[:12]:
+            rs = strsym.renderings(b, bb)
+            if not rs:
+                out.append((b.term_loc(bb), t, None))
+            for r in rs:
+                out.append((r.anchor(), r.template, r))
+    return out
+
+
+def _pv_fold(f, r):
+    """The PV text of an info rendering (its first hole) as a per-move fold: (pieces, slice) or None."""
+    if r is None or not r.holes:
+        return None
+    fp = strsym.fold_piece(f, r.body, r.ex, r.holes[0][1])
+    if fp is None:
+        return None
+    pieces, sources, (fb, fex) = fp
+    sl = set()
+    for e in sources:
+        sl |= data_slice(r.ex if fb is r.body else fex, e)
+    return pieces, sl
 
 
 def r18_1(ctx):
@@ -18,32 +50,51 @@ def r18_1(ctx):
     f = ctx.facts
     n_info = 0
     for b in f.all_bodies():
-        for loc, t in fmtlit.templates(b):
-            if t.startswith("info") or " info " in t[:12]:
-                n_info += 1
-                inside = b.name == SSI
-                ok = inside and bool(INFO_RE.match(t))
-                ctx.ob("info-template:%s#%d" % (b.name.split("::")[-1], n_info), ok, b.where(loc),
-                       "template `%s`%s" % (t, "" if inside else " outside send_search_info") + ("" if ok or not inside else "; must be `info pv<moves> depth D nodes N score (cp X|mate Y) time T`"))
+        for loc, t, r in _info_sites(b):
+            n_info += 1
+            inside = b.name == SSI
+            ok = inside and bool(INFO_RE.match(t))
+            ctx.ob("info-template:%s#%d" % (b.name.split("::")[-1], n_info), ok, b.where(loc),
+                   "rendered template `%s`%s" % (t, "" if inside else " outside send_search_info") + ("" if ok or not inside else "; must be `info pv<moves> depth D nodes N score (cp X|mate Y) time T`"))
         for loc, s in fmtlit.string_literals(b):
             if s.startswith("info ") and b.name != SSI:
                 ctx.ob("info-literal:%s" % b.name.split("::")[-1], False, b.where(loc), "literal `%s` printed outside send_search_info" % s[:40])
-    ctx.floor("info templates", n_info, 3)
-    # the PV part: each move is " {}{}" of two Points
+    ctx.floor("info templates", n_info, 1)
+    # the PV part: each move contributes " {}{}" of two Points (from, to)
     b = f.body(SSI)
     ctx.note_fn(SSI)
-    pv = [t for loc, t in fmtlit.templates(b) if not t.startswith("info")]
-    ctx.ob("send_search_info:pv-template", pv == ["{} {}{}"], b.file, "PV is accumulated with templates %s; must be `{} {}{}` (previous text, space, from, to)" % pv)
+    sites = [r for loc, t, r in _info_sites(b) if r is not None]
+    pvs = [_pv_fold(f, r) for r in sites]
+    ok = bool(pvs)
+    shown = []
+    for pv in pvs:
+        if pv is None:
+            ok = False
+            shown.append("not a per-move fold")
+            continue
+        pieces = pv[0]
+        tmpl = "".join(p[1] if p[0] == "lit" else "{}" for p in pieces)
+        shown.append(tmpl)
+        hs = [strip_refs(p[2]) for p in pieces if p[0] == "hole"]
+        order = len(hs) == 2 and all(h[0] == "field" for h in hs) and (hs[0][2], hs[1][2]) == ("0", "1") and strip_refs(hs[0][1]) == strip_refs(hs[1][1])
+        if tmpl != " {}{}" or not order:
+            ok = False
+    ctx.ob("send_search_info:pv-template", ok, b.file, "the PV text is one piece per move: %s; must be ` {}{}` (space, from, to) appended per move" % sorted(set(shown)))
 
 
-def _arms(b, ex):
-    """{'cp'|'mate+'|'mate-': (template loc, block)} of send_search_info's three outputs."""
-    out = []
-    for loc, t in fmtlit.templates(b):
-        m = INFO_RE.match(t)
-        if m:
-            out.append((loc, m.group(1)))
-    return out
+def _eval_interval(r, iv, ev):
+    """Interval of the eval parameter at a rendering: the meet over every i32 local that holds the
+    parameter there (an inlined helper tests its own copy of it)."""
+    st = iv.state_at(r.loc)
+    if st is None:
+        return None
+    x = iv.get(st, (ev, ()), "i32")
+    for l in range(len(r.body.locals)):
+        if l != ev and r.body.local_ty(l) == "i32" and r.ex.local(l, r.loc) == ("arg", ev):
+            x = meet(x, iv.get(st, (l, ()), "i32"))
+            if x is None:
+                return None
+    return x
 
 
 def r18_4(ctx):
@@ -52,54 +103,49 @@ def r18_4(ctx):
     f = ctx.facts
     b = f.body(SSI)
     ctx.note_fn(SSI)
-    ex = Exprs(b)
     mate = f.const_value("engine::MATE_SCORE")
     pos_inf = f.const_value("engine::POS_INF")
     evp = params_by_type(b, "i32")
     if len(evp) != 1:
         raise ShapeNotRecognised("send_search_info(.., eval: i32, ..)")
     ev = evp[0]
-    iv = Intervals(b)
-    arms = _arms(b, ex)
-    kinds = [k for _, k in arms]
-    ctx.ob("send_search_info:three-arms", sorted(kinds) == ["cp", "mate", "mate"], b.file, "output arms: %s" % kinds)
+    arms = []
+    for loc, t, r in _info_sites(b):
+        m = INFO_RE.match(t)
+        if m and r is not None:
+            arms.append((loc, m.group(1), r))
+    sides = []
     windows = set()
-    for loc, kind in arms:
-        st = iv.state_at(loc)
-        if st is None:
+    ivs = {}
+    for loc, kind, r in arms:
+        iv = ivs.get(r.body.dead_edges)
+        if iv is None:
+            iv = ivs[r.body.dead_edges] = Intervals(r.body)
+        rg = _eval_interval(r, iv, ev)
+        if rg is None:
             ctx.ob("send_search_info:%s-arm:reachable" % kind, False, b.where(loc), "arm unreachable")
             continue
-        r = iv.get(st, (ev, ()), "i32")
+        # the value printed after `score cp|mate `
+        val = strip_refs(r.holes[3][1]) if len(r.holes) == 5 else None
         if kind == "cp":
-            ok = r[0] > -mate and r[1] < mate and r[1] < pos_inf and r[0] > -pos_inf and -r[0] == r[1]
-            windows.add(mate - r[1] - 1)
+            sides.append("cp")
+            ok = rg[0] > -mate and rg[1] < mate and rg[1] < pos_inf and rg[0] > -pos_inf and -rg[0] == rg[1]
+            windows.add(mate - rg[1] - 1)
             ctx.ob("send_search_info:cp-arm:interval", ok, b.where(loc),
-                   "in the cp arm eval is in [%s, %s]; must be a symmetric interval strictly inside (-%d, %d): excludes the abort sentinel %d and every mate-range score" % (r[0], r[1], mate, mate, pos_inf))
+                   "in the cp arm eval is in [%s, %s]; must be a symmetric interval strictly inside (-%d, %d): excludes the abort sentinel %d and every mate-range score" % (rg[0], rg[1], mate, mate, pos_inf))
+            ctx.ob("send_search_info:cp-arm:value", val == ("arg", ev), b.where(loc), "the cp arm prints `%s`; must be the evaluation itself" % (show_expr(val, r.body)[:60] if val else "?"))
         else:
-            side = "+" if r[0] > 0 else "-"
-            w = (mate - r[0]) if side == "+" else (r[1] + mate)
+            side = "+" if rg[0] > 0 else "-"
+            sides.append("mate" + side)
+            w = (mate - rg[0]) if side == "+" else (rg[1] + mate)
             windows.add(w)
             okw = 0 < w < 1000
-            ctx.ob("send_search_info:mate%s-arm:window" % side, okw, b.where(loc), "mate%s arm entered for eval in [%s, %s] (window %s)" % (side, r[0], r[1], w))
+            ctx.ob("send_search_info:mate%s-arm:window" % side, okw, b.where(loc), "mate%s arm entered for eval in [%s, %s] (window %s)" % (side, rg[0], rg[1], w))
             # R11.3: the printed N over the window
-            nexprs = []
-            for bb, t in b.iter_calls():
-                c = t.get("callee_full") or ""
-                if "new_display::<i32>" in c:
-                    a = strip_refs(ex.call_args(bb)[0])
-                    # which arm: the call block is in the same arm as the template
-                    if b.node_dominates(bb, loc[0]) or b.node_dominates(loc[0], bb):
-                        same = all((x in [d2[3:] for d2 in dominating_facts(b, ex, loc[0])]) or True for x in [])
-                        if a != ("arg", ev) and ("arg", ev) in set(subexprs(a)):
-                            # restrict to the arm: block must be dominated by the arm's guard edge set
-                            fa = {(s, tg) for d, vals, excl, s, tg in dominating_facts(b, ex, bb)}
-                            fl = {(s, tg) for d, vals, excl, s, tg in dominating_facts(b, ex, loc[0])}
-                            if fa == fl:
-                                nexprs.append((bb, a))
-            if len(nexprs) != 1:
-                ctx.ob("send_search_info:mate%s-arm:N-expression" % side, False, b.where(loc), "expected one computed mate distance in this arm, found %d" % len(nexprs), reason="shape-not-recognised")
+            if val is None or val == ("arg", ev) or ("arg", ev) not in set(subexprs(val)):
+                ctx.ob("send_search_info:mate%s-arm:N-expression" % side, False, b.where(loc), "the value printed after `score mate` (`%s`) is not a mate distance computed from the evaluation" % (show_expr(val, r.body)[:60] if val else "?"), reason="shape-not-recognised")
                 continue
-            bbn, ne = nexprs[0]
+            ne = val
             bad = []
             lo_p = 1 if side == "+" else 2
             for p in range(lo_p, w + 1):
@@ -107,13 +153,14 @@ def r18_4(ctx):
                 try:
                     n = eval_expr(ne, {("arg", ev): e})
                 except Unknown:
-                    raise ShapeNotRecognised("cannot evaluate `%s`" % show_expr(ne, b))
+                    raise ShapeNotRecognised("cannot evaluate `%s`" % show_expr(ne, r.body))
                 want = (p + 1) // 2 if side == "+" else -(p // 2)
                 if n != want:
                     bad.append((p, n, want))
-            ctx.ob("send_search_info:mate%s-arm:N-arithmetic" % side, not bad, b.where(b.term_loc(bbn)),
-                   "N = `%s` evaluated for mate at ply p = %d..=%d: %s" % (show_expr(ne, b)[:70], lo_p, w,
+            ctx.ob("send_search_info:mate%s-arm:N-arithmetic" % side, not bad, b.where(loc),
+                   "N = `%s` evaluated for mate at ply p = %d..=%d: %s" % (show_expr(ne, r.body)[:70], lo_p, w,
                                                                          "N is ceil(p/2) for the winner / -floor(p/2) for the loser, never 0" if not bad else "wrong at (ply, printed, expected) %s" % bad[:4]))
+    ctx.ob("send_search_info:three-arms", sorted(sides) == ["cp", "mate+", "mate-"], b.file, "output arms: %s; must be one centipawn arm and one mate arm per side" % sorted(sides))
     ctx.ob("send_search_info:one-window", len(windows) == 1, b.file, "the three arms agree on the mate window: %s" % sorted(windows))
 
 
@@ -130,17 +177,31 @@ def r18_356(ctx):
     cbb, ct = calls[0]
     args = ex.call_args(cbb)
     loc = b.term_loc(cbb)
-    # R18.3 depth
+    # R18.3 depth: a counter that starts >= 1 and is only incremented outside the root-move loop, or
+    # the item of a numeric range starting >= 1 that is advanced outside the root-move loop
     d = strip_refs(args[1])
+    while d[0] == "cast":
+        d = strip_refs(d[2])
     dl = root_local(d) if d[0] == "var" else None
-    if dl is None:
+    loops = b.loops()
+    inner = None
+    for h, body_ in loops.items():
+        if cbb in body_ and (inner is None or len(body_) < len(loops[inner])):
+            inner = h
+    rng = None
+    if d[0] == "field" and d[2] == "0" and d[1][0] == "downcast" and d[1][2] == "Some" and d[1][1][0] == "call" and is_range_next(d[1][1]):
+        rng = d[1][1]
+    if rng is not None:
+        bounds = range_bounds(ex, rng)
+        nloc = rng[3]
+        lo = bounds[0] if bounds else None
+        ok = lo is not None and lo[0] == "const" and isinstance(lo[1], int) and lo[1] >= 1
+        ctx.ob("get_best_move:depth-init", ok, b.where(nloc), "the depth is the item of a range starting at %s; must be >= 1" % (show_expr(lo, b) if lo else "?"))
+        ok = any(nloc[0] in body_ and cbb in body_ for body_ in loops.values()) and (inner is None or nloc[0] not in loops[inner])
+        ctx.ob("get_best_move:depth-increment", ok, b.where(nloc), "depth counter only grows, once per completed pass over the root moves (the range is advanced by the depth loop, not inside the root-move loop)")
+    elif dl is None:
         ctx.ob("get_best_move:depth-argument", False, b.where(loc), "depth argument `%s` is not the depth counter" % show_expr(d, b), reason="shape-not-recognised")
     else:
-        loops = b.loops()
-        inner = None
-        for h, body_ in loops.items():
-            if cbb in body_ and (inner is None or len(body_) < len(loops[inner])):
-                inner = h
         nd = 0
         for dloc, kind in b.reaching().all_sites(dl):
             nd += 1
@@ -155,15 +216,28 @@ def r18_356(ctx):
                 ctx.ob("get_best_move:depth-increment", ok, b.where(dloc), "depth counter only grows, once per completed pass over the root moves")
             else:
                 ctx.ob("get_best_move:depth-def#%d" % nd, False, b.where(dloc), "depth counter changed by `%s`" % show_expr(e, b)[:60])
-    # R18.5 strictly increasing: call under `evaluation > alpha`, alpha = evaluation before the call
+    # R18.5 strictly increasing: the call is dominated by an edge that implies `evaluation > alpha`
+    # (the test itself, its negation with an early `continue`, or a named / composed boolean), and
+    # alpha = evaluation happens behind that edge before the call
     evalu = strip_refs(args[2])
+
+    def improvement(e, truth):
+        e = strip_refs(e)
+        if e[0] != "bin":
+            return None
+        a, c = strip_refs(e[2]), strip_refs(e[3])
+        if (e[1], truth) in (("Gt", True), ("Le", False)):
+            hi, lo_ = a, c
+        elif (e[1], truth) in (("Lt", True), ("Ge", False)):
+            hi, lo_ = c, a
+        else:
+            return None
+        return lo_ if hi == evalu and lo_[0] == "var" else None
+
     gt = None
-    for dd, vals, excl, s, tg in dominating_facts(b, ex, cbb):
-        truth = (vals is None and excl == [0]) or vals == [1]
-        if dd[0] == "bin" and dd[1] in ("Gt", "Lt") and truth:
-            a, c = (dd[2], dd[3]) if dd[1] == "Gt" else (dd[3], dd[2])
-            if strip_refs(a) == evalu and strip_refs(c)[0] == "var":
-                gt = (s, strip_refs(c))
+    for s, tg, atom, fresh, lastdefs in implying_edges(b, ex, lambda e, truth: improvement(e, truth) is not None):
+        if tg == cbb or b.edge_dominates((s, tg), cbb):
+            gt = ((s, tg), improvement(atom[0], atom[1]))
     ctx.ob("get_best_move:info-only-on-improvement", gt is not None, b.where(loc),
            "send_search_info(.., evaluation, ..) is dominated by `evaluation > alpha` (strict)")
     if gt is not None:
@@ -177,7 +251,7 @@ def r18_356(ctx):
                 upd = dloc
             else:
                 others.append((dloc, e))
-        ok = upd is not None and b.node_dominates(upd[0], cbb) and b.edge_dominates((gt[0], b.term(gt[0])["otherwise"]), upd[0])
+        ok = upd is not None and b.node_dominates(upd[0], cbb) and (gt[0][1] == upd[0] or b.edge_dominates(gt[0], upd[0]))
         ctx.ob("get_best_move:alpha-raised-with-info", ok, b.where(upd) if upd else b.where(loc),
                "`alpha = evaluation` happens in the same guarded region before the line is printed, so the next line of this depth must beat it")
         neg_inf = f.const_value("engine::NEG_INF")
@@ -233,12 +307,6 @@ def r18_7(ctx):
             ok = "pv_moves" in flds[0] and "cur_line" in flds[1]
     ctx.ob("set_principle_variation", ok, b.file, "pv_moves <- cur_line")
     b = f.body(SSI)
-    ex = Exprs(b)
-    ok = False
-    for bb, t in b.iter_calls():
-        c = callee_of(t) or ""
-        if c.endswith("::into_iter"):
-            a = ex.call_args(bb)[0]
-            if any(x[0] == "field" and x[2] == "pv_moves" for x in subexprs(a)):
-                ok = True
-    ctx.ob("send_search_info:prints-pv_moves", ok, b.file, "the PV printed is search_info.pv_moves")
+    pvs = [_pv_fold(f, r) for loc, t, r in _info_sites(b) if r is not None]
+    ok = bool(pvs) and all(pv is not None and any(x[0] == "field" and x[2] == "pv_moves" and strip_refs(x[1])[0] == "arg" for x in pv[1]) for pv in pvs)
+    ctx.ob("send_search_info:prints-pv_moves", ok, b.file, "the PV printed is folded over search_info.pv_moves (backward slice of the PV text of every info line)")
